@@ -21,6 +21,8 @@ func checkC06(c *Ctx) {
 	c.Rule("C06-R5", "PollEvent/PostEventWait/ChannelEvents: every blocking operation has a StopQ alternative; PollEvent returns nil on it")
 	c.Rule("C06-R9", "a finished screen stays finished: every close of a quit channel runs at most once (sync.Once, or behind a flag tested and set under the lock), and engage refuses to restart a screen whose fini flag is set")
 	c.Expect("C06-R9", 3)
+	c.Rule("C06-R11", "after Fini PollEvent returns nil even if events are still queued: the stop channel is tested alone before the select that also receives from the queue (two ready cases are chosen between at random)")
+	c.Expect("C06-R11", 1)
 	c.Rule("C06-R10", "no half-done state around the hand-over: a refused engage has stored nothing in the screen (a Resume turned down as 'already engaged' must not have replaced the stop channel the running loops listen to), and Fini marks the screen finished before its teardown releases the mutex")
 	c.Expect("C06-R10", 2)
 	c.Rule("C06-R8", "drawing cannot wedge a suspended screen: draw() returns at once unless the screen is running, and the column loop of every painter advances by at least one per cell (a width below 1, as reported for a cell outside the buffer, is raised to 1)")
@@ -534,6 +536,30 @@ func c06Poll(c *Ctx, p *Prog, rule string) {
 		})
 		if nsel == 0 {
 			c.Undecided(rule, name+":select", p.pos(fn.Pos()), "no blocking select found")
+		}
+		if name == "PollEvent" {
+			// R11: a finished screen answers nil although events are still queued.  A select with two
+			// ready cases picks one at random, so the stop channel has to be tested alone first: a
+			// non-blocking select whose only state is the receive from StopQ(), returning nil when it
+			// fires, dominates every blocking select of PollEvent.
+			var first *ssa.Select
+			eachInstr(fn, func(in ssa.Instruction) {
+				if sel, ok := in.(*ssa.Select); ok && !sel.Blocking && len(sel.States) == 1 &&
+					sel.States[0].Dir == types.RecvOnly && chanName(sel.States[0].Chan, nil, 0) == "iface.StopQ()" {
+					if blk := selectCaseBlock(sel, 0); blk != nil && len(blk.Instrs) > 0 {
+						if r, isRet := blk.Instrs[len(blk.Instrs)-1].(*ssa.Return); isRet && len(r.Results) == 1 && isNilConst(r.Results[0]) {
+							first = sel
+						}
+					}
+				}
+			})
+			ok := first != nil
+			eachInstr(fn, func(in ssa.Instruction) {
+				if sel, isSel := in.(*ssa.Select); isSel && sel.Blocking && (first == nil || !instrDominates(first, sel)) {
+					ok = false
+				}
+			})
+			c.Check(ok, "C06-R11", "PollEvent:stop-has-priority", p.pos(fn.Pos()), "the stop channel is polled on its own (nil if closed) before the select that also receives events")
 		}
 	}
 }
